@@ -942,7 +942,7 @@ pub fn run(out: &mut Out, tier: &str, seed: u64, prop: &str) {
     }
     // ---- C19: bare URLs, paths and archive names are never taken for package names ---------------------
     if prop == "C19" {
-        let shapes = ["https://x.org/a-1.0.whl", "git+https://github.com/a/b.git", "file:///tmp/x", "http://h/p?q=1", "/abs/path", "./rel", "../rel/p.tar.gz", "rel/p", "C:\\x\\y", ".", "..",
+        let shapes = ["https://x.org/a-1.0.whl", "git+https://github.com/a/b.git", "file:///tmp/x", "http://h/p?q=1", "/abs/path", "./rel", "../rel/p.tar.gz", "rel/p", "/abs", "/a", "./a", "a/b", "a\\b", "x/", "/", "C:\\x\\y", ".", "..",
             "requests-2.26.0.tar.gz", "foo.whl", "x.zip", "a.tar.bz2", "a.tgz", "pkg-1.0.tar.xz", "A.TAR.GZ", "a.tar", "a.tbz", "a.tar.lzma", "dir/a.whl", "~/x", "\\\\server\\share", "foo.tar.gz.sig",
             "${VP_HOME_DIR}/x", "a.tlz", "a.txz", "a.tar.lz", "b.b.zip", "n.gz", "tar.gz", "x.tar.gz2",
             // non-ASCII text: byte lengths and char counts differ
@@ -977,7 +977,7 @@ pub fn run(out: &mut Out, tier: &str, seed: u64, prop: &str) {
         }
         let n0 = all.len();
         for i in 0..n0 {
-            for lead in [" ", "\t ", "  "] { let (t, _) = all[i].clone(); all.push((format!("{lead}{t}"), false)); }
+            for lead in [" ", "\t ", "  ", "\u{a0}", "\u{3000}", "\u{2003}\u{a0}"] { let (t, _) = all[i].clone(); all.push((format!("{lead}{t}"), false)); }
         }
         for (sh, handpicked) in &all {
             let sh = sh.as_str();
